@@ -47,6 +47,7 @@ class RowHistory:
     def reset_locals(self):
         """Reset the minimum count that counts as "local" """
         self.local_counters = deepcopy(self.table_counters)
+        self.local_nickname_counters = dict(self.nickname_counters)
 
     def save_row(self, tablename: str, nickname: T.Optional[str], row: dict):
         """Save a row to temporary storage"""
@@ -56,8 +57,9 @@ class RowHistory:
         self.table_counters[tablename] = row_id
 
         if nickname:
+            # nickname ordinals live in their own namespace: a nickname may
+            # be spelled like a table name
             nickname_id = self._get_nickname_id(tablename, nickname)
-            self.table_counters[nickname] = nickname_id
         else:
             nickname_id = None
 
@@ -103,7 +105,7 @@ class RowHistory:
                 self.already_warned = True
             min_id = 1
         elif nickname:
-            min_id = self.local_counters.get(nickname, 0) + 1
+            min_id = self.local_nickname_counters.get(nickname, 0) + 1
         else:
             min_id = self.local_counters.get(tablename, 0) + 1
         # if no records can be found in this iteration
